@@ -810,11 +810,11 @@ theorem pullEvents_coverAll (cs : CharSpec) (ext : Ext) (input : List Char) :
 
 /-- what the property needs of the character tables: a letter or digit (`char::is_alphanumeric`)
     is not white space (neither `char::is_whitespace` nor the lexer's whitespace class) and is none
-    of the characters `>`, `=`, backslash, LF, CR.  True of the Unicode tables of the
+    of the characters `>`, `=`, backslash, LF, CR, `-`.  True of the Unicode tables of the
     implementation. -/
 structure AlnumSpec (cs : CharSpec) : Prop where
   notWs : ∀ c, cs.alnum c = true → cs.uws c = false ∧ cs.ws c = false
-  notSyntax : ∀ c, cs.alnum c = true → c ≠ '>' ∧ c ≠ '=' ∧ c ≠ '\\' ∧ c ≠ '\n' ∧ c ≠ '\r'
+  notSyntax : ∀ c, cs.alnum c = true → c ≠ '>' ∧ c ≠ '=' ∧ c ≠ '\\' ∧ c ≠ '\n' ∧ c ≠ '\r' ∧ c ≠ '-'
 
 theorem singleKind_eq_char {c : Char} (h : singleKind c = some .eq) : c = '=' := by
   unfold singleKind at h
@@ -835,7 +835,7 @@ theorem wordy_of_alnum {cs : CharSpec} (hs : AlnumSpec cs) {t : Tok} {nx : Optio
     {c : Char} (hc : c ∈ t.text) (ha : cs.alnum c = true) : Wordy cs t := by
   have hu := (hs.notWs c ha).1
   have hws := (hs.notWs c ha).2
-  obtain ⟨n1, n2, n3, n4, n5⟩ := hs.notSyntax c ha
+  obtain ⟨n1, n2, n3, n4, n5, -⟩ := hs.notSyntax c ha
   have generic : (t.kind ≠ .newline ∧ t.kind ≠ .escaped ∧ t.kind ≠ .ws ∧ t.kind ≠ .metaStart ∧
       t.kind ≠ .eq ∧ t.kind ≠ .textStep) → Wordy cs t := by
     rintro ⟨h1, h2, h3, h4, h5, h6⟩
